@@ -1,2 +1,164 @@
-(* placeholder: complex sparse model, filled in below *)
+(* CSparse.v — executable model of CBigComplexLinProb (cfemm/libfemm/cspars.cpp) for the case
+   the linear (non-Newton) assemblers use: k = 0, bNewton = false.  Put/Get/AddTo/MultA/MultPC/
+   Periodicity/AntiPeriodicity/Wipe/Dot are the statements of spars.cpp with CComplex
+   arithmetic, so they are the Sparse.v model read at the complex instance [CA A]; what differs
+   (SetValue's scan range, the BiCG solver and its CGNE start) is modelled here. *)
+From Coq Require Import ZArith List Bool Arith.
 From XF Require Import Arith Sparse.
+Import ListNotations.
+
+Section CSparse.
+  Context {F : Type} (A : Arith F).
+  Local Notation C := (CA A).
+  Local Notation cplx := (F * F)%type.
+  Local Notation cmatrix := (list (list (nat * cplx))).
+  Local Notation cvec := (list cplx).
+
+  Record clin := mkCLin {
+    cn : nat; cbdw : nat; cnodes : nat; cM : cmatrix; cb : cvec; cV : cvec; cprec : F; clam : F }.
+
+  Definition ccreate (n bw nodes : nat) (prec lam : F) : clin :=
+    mkCLin n bw nodes (mcreate C n) (vzero C n) (vzero C n) prec lam.
+  Definition cwith (L : clin) M b := mkCLin (cn L) (cbdw L) (cnodes L) M b (cV L) (cprec L) (clam L).
+  Definition cwithV (L : clin) V := mkCLin (cn L) (cbdw L) (cnodes L) (cM L) (cb L) V (cprec L) (clam L).
+
+  (* CBigComplexLinProb::SetValue: rows fst..lst-1 and then NumNodes..n-1 *)
+  Definition csv_rows (n bdw nodes i : nat) : list nat :=
+    if Nat.eqb bdw 0 then seq 0 n
+    else
+      let fst := i - bdw in
+      let lst := Nat.min (i + bdw) nodes in
+      if Nat.leb fst lst && Nat.ltb lst n then seq fst (lst - fst) ++ seq nodes (n - nodes)
+      else seq fst (n - fst).
+
+  Definition csetvalue (L : clin) (i : nat) (x : cplx) : clin :=
+    let '(M, b) := sv_loop C (csv_rows (cn L) (cbdw L) (cnodes L) i) i x (cM L) (cb L) in
+    cwith L M (vset b i (amul C (mget C M i i) x)).
+
+  (* Periodicity / AntiPeriodicity: with KLUDGE the loop runs over all rows *)
+  Definition as_lin (L : clin) : lin (F:=cplx) :=
+    mkLin (cn L) 0 (cM L) (cb L) (cV L) (cofR A (cprec L)) (cofR A (clam L)).
+  Definition cperiodicity (L : clin) (i j : nat) : clin :=
+    let L' := periodicity C (as_lin L) i j in cwith L (lM L') (lb L').
+  Definition cantiperiodicity (L : clin) (i j : nat) : clin :=
+    let L' := antiperiodicity C (as_lin L) i j in cwith L (lM L') (lb L').
+
+  Definition cmultPC (L : clin) (X : cvec) : cvec := multPC C (cM L) (cofR A (clam L)) X.
+  Definition cmultA (L : clin) (X : cvec) : cvec := multA C (cM L) X.
+  Definition conjv (X : cvec) : cvec := map (cconj A) X.
+  Definition cdot (X Y : cvec) : cplx := dot C X Y.
+  Definition cconjdot (X Y : cvec) : cplx := dot C (conjv X) Y.
+  Definition cnrm (X : cvec) : F := asqrt A (fst (cconjdot X X)).
+
+  (* MultAPPA *)
+  Definition multAPPA (L : clin) (X : cvec) : cvec :=
+    let Z := cmultA L X in
+    let Y := conjv (cmultPC L Z) in
+    let Z := cmultPC L Y in
+    conjv (cmultA L Z).
+
+  Definition caxpy (a : cplx) (X Y : cvec) : cvec :=
+    map (fun '(y, x) => cadd A y (cmul A a x)) (combine Y X).
+  Definition caxmy (a : cplx) (X Y : cvec) : cvec :=
+    map (fun '(y, x) => csub A y (cmul A a x)) (combine Y X).
+
+  (* PCGSQStart: three CGNE steps from V = 0; result V (or None on the singular flag) *)
+  Fixpoint sq_iter (k : nat) (L : clin) (V P R : cvec) (res : cplx) : cvec :=
+    match k with
+    | O => V
+    | S k' =>
+        let U := multAPPA L P in
+        let pAp := cconjdot P U in
+        let del := cdiv A res pAp in
+        let V' := caxpy del P V in
+        let R' := caxmy del U R in
+        let res_new := cconjdot R' R' in
+        let rho := cdiv A res_new res in
+        let P' := map (fun '(r, p) => cadd A r (cmul A rho p)) (combine R' P) in
+        sq_iter k' L V' P' R' res_new
+    end.
+
+  Definition pcgsqstart (L : clin) : option cvec :=
+    if existsb (fun r => ceqb A (diag_of C r) (azero C)) (cM L) then None
+    else
+      let Z := conjv (cmultPC L (cb L)) in
+      let P := cmultPC L Z in
+      let Z := cmultA L P in
+      let P := conjv Z in
+      let V := vzero C (cn L) in
+      let R := map (fun '(p, r) => csub A p r) (combine P (multAPPA L V)) in
+      Some (sq_iter 3 L V R R (cconjdot R R)).
+
+  Record bstate := mkB { bV : cvec; bP : cvec; bR : cvec; bres : cplx }.
+
+  Definition bicg_step (L : clin) (s : bstate) : bstate :=
+    let U := cmultA L (bP s) in
+    let pAp := cdot (bP s) U in
+    let del := cdiv A (bres s) pAp in
+    let V' := caxpy del (bP s) (bV s) in
+    let R' := caxmy del U (bR s) in
+    let Z := cmultPC L R' in
+    let res_new := cdot Z R' in
+    let rho := cdiv A res_new (bres s) in
+    let P' := map (fun '(z, p) => cadd A z (cmul A rho p)) (combine Z (bP s)) in
+    mkB V' P' R' res_new.
+
+  Fixpoint bicg_loop (fuel : nat) (L : clin) (normb : F) (s : bstate) (it : nat) : bstate * nat * bool :=
+    match fuel with
+    | O => (s, it, false)
+    | S fuel' =>
+        let s' := bicg_step L s in
+        let er := adiv A (cnrm (bR s')) normb in
+        if altb A (cprec L) er then bicg_loop fuel' L normb s' (S it) else (s', S it, true)
+    end.
+
+  (* PBCGSolve(flag) ; flag = false zeroes V *)
+  Definition pbcg (fuel : nat) (L : clin) (V0 : cvec) : cvec * nat * nat :=
+    let R0 := map (fun '(b, r) => csub A b r) (combine (cb L) (cmultA L V0)) in
+    let normb := cnrm (cb L) in
+    let Z := cmultPC L R0 in
+    let '(s, it, ok) := bicg_loop fuel L normb (mkB V0 Z R0 (cdot Z R0)) 0 in
+    (bV s, it, if ok then 1 else 2).
+
+  (* PBCGSolveMod(flag): status 0 singular flag, 1 returned, 2 fuel exhausted *)
+  Definition pbcgsolvemod (fuel : nat) (L : clin) (flag : bool) : cvec * nat * nat :=
+    if flag then pbcg fuel L (cV L)
+    else match pcgsqstart L with
+         | None => (cV L, 0, 0)
+         | Some V0 => pbcg fuel L V0
+         end.
+
+  Inductive cop :=
+  | CPut (v : cplx) (p q : nat) | CAddTo (v : cplx) (p q : nat) | CGet (p q : nat)
+  | CSetB (i : nat) (v : cplx) | CSetValue (i : nat) (v : cplx)
+  | CPeriodic (i j : nat) | CAntiPeriodic (i j : nat)
+  | CMultA (X : cvec) | CMultPC (X : cvec) | CSolve (flag : bool) (fuel : nat) | CDump.
+
+  Definition flat (X : cvec) : list F := concat (map (fun z => [fst z; snd z]) X).
+  Definition cdump_rows (M : cmatrix) : list F :=
+    concat (map (fun r => aofZ A (Z.of_nat (length r))
+                          :: concat (map (fun '(c, x) => [aofZ A (Z.of_nat c); fst x; snd x]) r)) M).
+
+  Definition cstep (L : clin) (o : cop) : clin * list F :=
+    match o with
+    | CPut v p q => (cwith L (mput (cM L) v p q) (cb L), [])
+    | CAddTo v p q => (cwith L (maddto C (cM L) v p q) (cb L), [])
+    | CGet p q => (L, flat [mget C (cM L) p q])
+    | CSetB i v => (cwith L (cM L) (vset (cb L) i v), [])
+    | CSetValue i v => (csetvalue L i v, [])
+    | CPeriodic i j => (cperiodicity L i j, [])
+    | CAntiPeriodic i j => (cantiperiodicity L i j, [])
+    | CMultA X => (L, flat (cmultA L X))
+    | CMultPC X => (L, flat (cmultPC L X))
+    | CSolve flag fuel =>
+        let '(V, it, st) := pbcgsolvemod fuel L flag in
+        (cwithV L V, aofZ A (Z.of_nat st) :: aofZ A (Z.of_nat it) :: flat V)
+    | CDump => (L, cdump_rows (cM L) ++ flat (cb L))
+    end.
+
+  Fixpoint crun (L : clin) (ops : list cop) : list (list F) :=
+    match ops with
+    | [] => []
+    | o :: ops' => let '(L', out) := cstep L o in out :: crun L' ops'
+    end.
+End CSparse.
